@@ -404,6 +404,7 @@ func someFrames(r *Rng, n int, thorough bool) []builtFrame {
 }
 
 func genFR(w *bufio.Writer, thorough bool, r *Rng) {
+	poolLines(w, r)
 	n := 160
 	if thorough {
 		n = 1500
@@ -494,6 +495,32 @@ func magicWords(r *Rng) []uint32 {
 	return ws
 }
 
+// poolLines: frames of a large block-size class whose content is exactly the size of a smaller class,
+// read with small buffers: what the Reader returns to the shared block pools afterwards must not change
+// how later, unrelated streams are treated (the pools are process-wide state).
+func poolLines(w *bufio.Writer, r *Rng) {
+	for _, big := range []int{4 << 20, 1 << 20, 262144} {
+		for _, small := range []int{65536, 262144, 1 << 20} {
+			if small >= big {
+				continue
+			}
+			content := genContent(r.Pick([]int{0, 1, 5}), r.Intn(1000), small)
+			fr := realFrame(content, wopts{bs: big, cc: 1, conc: 1})
+			ref := saveBlob("pool", fr)
+			fmt.Fprintf(w, "R %d %s 0 -1 0 r:100 r:%d r:100 r:9 E:%s\n", r.Pick([]int{1, 2}), ref, small, saveBlob("poolc", content))
+			fmt.Fprintf(w, "R 1 %s 0 -1 0 wt:-1\n", ref)
+		}
+	}
+	// a 64 KiB-class frame with a stored block just above the class maximum
+	hdr, _ := buildFrame(nil, frameOpts{bsCode: 4, cc: false, size: -1, noEndMark: true}, r)
+	for _, sz := range []int{65537, 70000, 262144} {
+		b := append(append([]byte{}, hdr...), le32b(0x80000000|uint32(sz))...)
+		b = append(b, r.Bytes(sz)...)
+		b = append(b, 0, 0, 0, 0)
+		fmt.Fprintf(w, "R %d %s 0 -1 0 r:100 r:%d r:9 X:badblksize\n", r.Pick([]int{1, 2}), saveBlob("oversz", b), sz)
+	}
+}
+
 // reuseLines: a Reader taken through Reset in every state a previous stream can leave it in:
 // a partly consumed block (small and large block sizes), a WriteTo that failed on its destination
 // while blocks were in flight, a stream read to its end; the next stream may be a legacy frame with
@@ -528,6 +555,7 @@ func reuseLines(w *bufio.Writer, r *Rng, k int) {
 }
 
 func genFRMut(w *bufio.Writer, thorough bool, r *Rng) {
+	poolLines(w, r)
 	n := 60
 	per := 40
 	if thorough {
@@ -578,8 +606,14 @@ func genFRMut(w *bufio.Writer, thorough bool, r *Rng) {
 				} else {
 					m[r.Intn(len(m))] ^= 0x80
 				}
-			default: // byte substitution in the trailer
-				if len(m) > 8 {
+			default: // byte substitution in the trailer, or 00 / ff at a structural field
+				if r.Bool() && len(bf.fields) > 0 {
+					p := bf.fields[r.Intn(len(bf.fields))] + r.Intn(4)
+					if p >= len(m) {
+						p = len(m) - 1
+					}
+					m[p] = byte(r.Pick([]int{0, 0, 255}))
+				} else if len(m) > 8 {
 					m[len(m)-1-r.Intn(8)] = byte(r.Intn(256))
 				}
 			}
@@ -600,6 +634,7 @@ func genFRMut(w *bufio.Writer, thorough bool, r *Rng) {
 }
 
 func genFRTrunc(w *bufio.Writer, thorough bool, r *Rng) {
+	poolLines(w, r)
 	n := 14
 	if thorough {
 		n = 400
@@ -648,6 +683,7 @@ func genFRTrunc(w *bufio.Writer, thorough bool, r *Rng) {
 }
 
 func genFRHostile(w *bufio.Writer, thorough bool, r *Rng) {
+	poolLines(w, r)
 	n := 400
 	if thorough {
 		n = 6000
@@ -757,6 +793,30 @@ func genFRHostile(w *bufio.Writer, thorough bool, r *Rng) {
 	}
 	fmt.Fprintf(w, "R 1 %s 0 -1 0 wt:-1\n", saveBlob("emptyrep", rep.Bytes()))
 	fmt.Fprintf(w, "R 4 %s 0 -1 0 wt:-1\n", saveBlob("emptyrep", rep.Bytes()))
+	// several undecodable blocks in a row (a big one cut short, tiny invalid ones), then a valid block
+	for i := 0; i < 12; i++ {
+		code := 4 + r.Intn(4)
+		h2, _ := buildFrame(nil, frameOpts{bsCode: code, bc: false, cc: r.Bool(), size: -1, noEndMark: true}, r)
+		var b bytes.Buffer
+		b.Write(h2)
+		if r.Bool() {
+			junk := r.Bytes(2000 + r.Intn(60000))
+			junk[0] = 0xF0 // a literal run that overruns the block
+			b.Write(le32b(uint32(len(junk))))
+			b.Write(junk)
+		}
+		for k := 2 + r.Intn(5); k > 0; k-- {
+			b.Write(le32b(3))
+			b.Write([]byte{0xFF, byte(r.Intn(256)), byte(r.Intn(256))})
+		}
+		b.Write(le32b(0x80000005))
+		b.Write([]byte("hello"))
+		b.Write(le32b(0))
+		ref := saveBlob("multibad", b.Bytes())
+		for _, conc := range []int{1, 2, 4} {
+			fmt.Fprintf(w, "R %d %s 0 -1 0 %s X:shortbuf\n", conc, ref, ops())
+		}
+	}
 	// a Reader that meets hostile input after it was used for something else
 	reuseLines(w, r, 3)
 }
@@ -859,6 +919,12 @@ func genConc(w *bufio.Writer, thorough bool, r *Rng) {
 			blk := r.Intn(3)
 			pos := fields[4+3*blk+1] + 5
 			bad[pos] ^= 0x40
+			// often the following blocks are damaged too: several failures in flight at once
+			for extra := r.Intn(4); extra > 0; extra-- {
+				if b2 := blk + extra; 4+3*b2+1 < len(fields) && fields[4+3*b2+1]+9 < len(bad) {
+					bad[fields[4+3*b2+1]+5+r.Intn(4)] ^= byte(1 + r.Intn(255))
+				}
+			}
 			ref := saveBlob("cbad", bad)
 			fmt.Fprintf(w, "R %d %s 0 -1 0 r:100 %s r:%d r:%d X:badblkck P:%s\n", conc, ref, slow, len(content), len(content), cref)
 			fmt.Fprintf(w, "R %d %s 0 -1 0 wt:-1 X:badblkck P:%s\n", conc, ref, cref)
